@@ -936,20 +936,24 @@ func (h *harness) caseDesc(c *runCfg, seq []int8) map[string]any {
 	return d
 }
 
-// key builds the finding key: oracle, then the class of configurations it failed on. Runs with
-// one stream (no view / one view) name the aggregation, temporality and whether a limit is
-// active, because every aggregation has its own limiter call and its own delta/cumulative
-// export. Runs with two matching views probe how streams are resolved, which does not depend
-// on the aggregation: their class is the relation between the two views only.
+// key builds the finding key: the violated clause, then the class of configurations. Without
+// a view the class names the aggregation, its temporality and whether a limit is active: every
+// aggregation has its own limiter call and its own delta / cumulative export. With one view
+// the class is the kind of view (filter, rename, ...) and whether a limit is active; with two
+// matching views it is the relation between the two. Views are resolved and filters applied
+// before and independently of the aggregation, which is named in the message and the case.
 func (c *runCfg) key(oracle, sem string) string {
-	if len(c.views) == 2 {
-		return fmt.Sprintf("%s|%s", oracle, c.class)
-	}
 	lim := "unlimited"
 	if c.limit.n > 0 {
 		lim = "limited"
 	}
-	return fmt.Sprintf("%s|%s/%s|%s|%s", oracle, sem, c.temp(), lim, c.class)
+	switch len(c.views) {
+	case 0:
+		return fmt.Sprintf("%s|%s/%s|%s", oracle, sem, c.temp(), lim)
+	case 1:
+		return fmt.Sprintf("%s|%s|%s", oracle, c.class, lim)
+	}
+	return fmt.Sprintf("%s|%s", oracle, c.class)
 }
 
 // runCase executes one sequence on a fresh provider and judges every collection.
@@ -1076,7 +1080,9 @@ func TestVerifC12(t *testing.T) {
 		}
 	}
 	for _, k := range kinds {
-		jobs = append(jobs, "view/"+k.name)
+		for _, tp := range []string{"delta", "cumulative"} {
+			jobs = append(jobs, "view/"+k.name+"/"+tp)
+		}
 	}
 	for _, k := range kinds {
 		for _, tp := range []string{"delta", "cumulative"} {
@@ -1142,12 +1148,10 @@ func TestVerifC12(t *testing.T) {
 				paths = []int{0, 1}
 			}
 			for _, v := range views {
-				for _, delta := range []bool{true, false} {
-					for _, l := range limits {
-						for _, p := range paths {
-							c := &runCfg{kind: kind, delta: delta, limit: l, views: []*viewT{v}, decoy: true, obsPath: p}
-							h.enumerate("view/"+c.tag(), c, maxLen, maxCollects)
-						}
+				for _, l := range limits {
+					for _, p := range paths {
+						c := &runCfg{kind: kind, delta: parts[2] == "delta", limit: l, views: []*viewT{v}, decoy: true, obsPath: p}
+						h.enumerate("view/"+c.tag(), c, maxLen, maxCollects)
 					}
 				}
 			}
